@@ -113,6 +113,20 @@ func sourceForTable(query *sql.Query, opts *Opts) (core.RowSource, error) {
 			}
 		}
 
+		// The query's fields are resolved against the included fields again later
+		// on. A table field that the query only names inside an expression that
+		// matched another table field as a whole isn't included, it would then
+		// be taken for a raw value and read as 0. Include all fields in that case.
+		reduced, err := query.Fields.Get(result)
+		if err != nil || len(reduced) != len(fields) {
+			return tableFields, nil
+		}
+		for i := range fields {
+			if reduced[i].Expr.String() != fields[i].Expr.String() {
+				return tableFields, nil
+			}
+		}
+
 		return result, nil
 	})
 }
